@@ -3,10 +3,12 @@
 impl Clock {
 	pub(crate) fn kv_force(&mut self, ticking: bool, ticks: u64, fraction: f64) {
 		self.ticking = ticking;
+		self.shared.ticking.store(ticking, Ordering::SeqCst);
 		self.state = State::Started { ticks, fractional_position: fraction };
 	}
 	pub(crate) fn kv_force_not_started(&mut self, ticking: bool) {
 		self.ticking = ticking;
+		self.shared.ticking.store(ticking, Ordering::SeqCst);
 		self.state = State::NotStarted;
 	}
 }
